@@ -630,7 +630,7 @@ TT_ = "spl_frontend::tokens::TokenType::"
 def _markers_in(prog, root, crate):
     """Which syntactic-position tests does `root` (followed three levels into local callees) make?"""
     ms = set()
-    for n in hir.nodes_deep(prog, root, 5, crate=crate):
+    for n in hir.nodes_deep(prog, root, 6, crate=crate, values=True):
         pats = []
         k = n.get("k")
         if k == "Match":
@@ -1718,13 +1718,13 @@ def rule_comment_pairing(prog):
         for n in calls:
             which = roles.classify_comment_call(prog, n)
             # node type the helper is applied for: type of the formatted node in the String argument
-            first = hir.strip(n["args"][0])
+            first = hir.strip_ref(n["args"][0])
             # (the text may be rendered one statement earlier: `let text = node.fmt(..); helper(text, ..)`)
             pl_first = hir.path_local(first)
             if pl_first:
                 for l_ in hir.nodes(b["body"], "Let"):
                     if l_["pat"].get("k") == "Binding" and l_["pat"]["id"] == pl_first["id"] and "Mut" not in l_["pat"]["mode"] and l_.get("init") is not None:
-                        first = hir.strip(l_["init"])
+                        first = hir.strip_ref(l_["init"])
             labels = [(node, n)]
             if first.get("k") == "MethodCall" and first["m"] == "fmt":
                 lb_ = type_label(first["recv"])
@@ -1774,7 +1774,7 @@ def rule_comment_pairing(prog):
                 continue
             tests_kind = False
             for a_ in mc["args"]:
-                for x in hir.nodes_deep(prog, a_, 1, crate=c):
+                for x in hir.nodes_deep(prog, a_, 1, crate=c, values=True):
                     pats = [q["pat"] for q in x["arms"]] if x.get("k") == "Match" else [x["pat"]] if x.get("k") == "LetExpr" else []
                     if any("spl_frontend::tokens::TokenType::Comment" in hir.pat_variants_all(pt) for pt in pats):
                         tests_kind = True
